@@ -76,8 +76,22 @@ def gen_configs(tier):
     T = tier == "thorough"
     out = []
 
+    cnt = [0, 0]
+
     def add(*a, **k):
-        out.append(make_cfg(*a, **k))
+        c = make_cfg(*a, **k)
+        h = c["h"]
+        # data refinement (same abstract cases): how the variables are laid out in the Dataset
+        if h.get("api") != "auto" and "mix" not in h:
+            secondary = c["kind"] != "heat" and (c["xvar"] or h.get("yerr") or h.get("xerr") or c["colour"] == "c"
+                                                 or c["series"] == "vars")
+            if secondary:
+                cnt[0] += 1
+                h["mix"] = (1, 2, 0)[cnt[0] % 3]
+            elif not h.get("dimorder"):
+                cnt[1] += 1
+                h["mix"] = (0, 2)[cnt[1] % 2]
+        out.append(c)
 
     full = 99
     b1, b2 = (2, 3) if T else (1, 2)
@@ -149,6 +163,15 @@ def gen_configs(tier):
         add(kind, 3, 1, maxbad=full, api="auto")
         add(kind, 3, 2, xvar=True, maxbad=b1 if not T else 3, api="auto", colour="z")
         add(kind, 2, 3, maxbad=b1, api="auto", colour="z", colormap="viridis")
+        # --- positions spread over two equally long dimensions, x / err / c stored transposed w.r.t. y
+        add(kind, 4, 1, xvar=True, split=(2, 2), maxbad=b2 if not T else full, mix=1)
+        add(kind, 4, 2, xvar=True, split=(2, 2), maxbad=b1 if not T else 2, whole=True, mix=2,
+            colour="c" if sc else "z", ZPos=[3, 1])
+        add(kind, 4, 1, NR=2, xvar=True, split=(2, 2), maxbad=1, vals="fn", mix=1)
+        if sc:
+            add(kind, 4, 1, xvar=True, split=(2, 2), maxbad=b1 if not T else 3, colour="c", mix=1, colormap="viridis")
+        else:
+            add(kind, 4, 1, xvar=True, split=(2, 2), maxbad=b1 if not T else 3, yerr=True, xerr=True, mix=1)
         if not sc:
             # --- error bars
             add(kind, 3, 2, maxbad=b2, whole=True, yerr=True)
@@ -355,12 +378,37 @@ def build(case):
               slice(None) if z is None else z, slice(None)]
         return A[tuple(ix)]
 
-    def var(dims, A):
+    mix = h.get("mix", 0)        # 1: x / err / c (and every other variable of several) stored with the
+    split = h.get("split")       #    reverse dim order of y; 2: y reversed instead.  split: k axis -> (ka, kb)
+    roles = {}
+
+    def var(dims, A, role="y"):
+        """(dims, array) as stored in the Dataset.  Data refinement only: the same abstract cells, but the
+        stored dimension order of a variable may differ from that of y and from the Dataset's own order,
+        and the position axis may be two (equally long) dimensions."""
         dims = list(dims)
-        if h.get("dimorder"):
+        A = np.asarray(A)
+        if split and dims and dims[-1] == "kk":
+            dims = dims[:-1] + ["ka", "kb"]
+            A = A.reshape(A.shape[:-1] + tuple(split))
+        rev = bool(h.get("dimorder")) != ((mix == 1 and role == "s") or (mix == 2 and role == "y"))
+        if rev and len(dims) > 1:
             perm = list(range(len(dims)))[::-1]
-            return (tuple(dims[p] for p in perm), np.transpose(A, perm).copy())
-        return (tuple(dims), np.array(A))
+            dims, A = [dims[p] for p in perm], np.transpose(A, perm)
+        return (tuple(dims), np.array(A, order="C"), role)
+
+    def assemble(coords, dv):
+        """coordinates first, then the variables one by one (as after transpose / merge)"""
+        ds = xr.Dataset(coords=coords)
+        for name, (dims, A, role) in dv.items():
+            ds[name] = (dims, A)
+            roles[name] = role
+        if mix:
+            ys = [n_ for n_ in dv if roles[n_] == "y" and len(dv[n_][0]) > 1]
+            for n_ in dv:
+                if roles[n_] == "s" and ys and set(dv[n_][0]) == set(dv[ys[0]][0]):
+                    assert ds[n_].dims != ds[ys[0]].dims, (n_, ds[n_].dims, ds[ys[0]].dims)
+        return ds
 
     # ---- options common to all kinds
     if cfg["colour"] == "z":
@@ -391,7 +439,7 @@ def build(case):
             return b
         coords["hx"] = x_coords(cfg)
         coords["hy"] = y_coords(cfg)
-        ds = xr.Dataset(coords=coords, data_vars={"vv": var(gdims + ["hy", "hx"], sel(Y))})
+        ds = assemble(coords, {"vv": var(gdims + ["hy", "hx"], sel(Y))})
         b.fn, b.args, b.ds = "heatmap", ["hx", "hy", "vv"], ds
         return b
 
@@ -411,12 +459,12 @@ def build(case):
             b.args = ["vv", "zz"]
         elif cfg["series"] == "vars":
             for z in range(NZ):
-                dv[VAR_NAMES[z]] = var(gdims + ["kk"], sel(Y, z))
+                dv[VAR_NAMES[z]] = var(gdims + ["kk"], sel(Y, z), "s" if z % 2 else "y")
             b.args = [tuple(VAR_NAMES[:NZ])]
         else:
             dv["vv"] = var(gdims + ["kk"], sel(Y, 0))
             b.args = ["vv"]
-        b.fn, b.ds = "histogram", xr.Dataset(coords=coords, data_vars=dv)
+        b.fn, b.ds = "histogram", assemble(coords, dv)
         return b
 
     # ---- line / scatter
@@ -440,14 +488,14 @@ def build(case):
         coords["zz"] = z_values(cfg)
         dv["yy"] = var(gdims + ["zz", xdim], sel(Y))
         if cfg["xvar"]:
-            dv["xv"] = var(gdims + ["zz", xdim], sel(XV))
+            dv["xv"] = var(gdims + ["zz", xdim], sel(XV), "s")
         if h.get("yerr"):
-            dv["ey"] = var(gdims + ["zz", xdim], sel(EY))
+            dv["ey"] = var(gdims + ["zz", xdim], sel(EY), "s")
         if h.get("xerr"):
-            dv["ex"] = var(gdims + ["zz", xdim], sel(EY) / 2)
+            dv["ex"] = var(gdims + ["zz", xdim], sel(EY) / 2, "s")
         if cfg["colour"] == "c":
             if kind == "scatter":
-                dv["cv"] = var(gdims + ["zz", xdim], sel(CV))
+                dv["cv"] = var(gdims + ["zz", xdim], sel(CV), "s")
             else:
                 CL = np.empty((R, C, NZ))
                 for r in range(R):
@@ -455,30 +503,30 @@ def build(case):
                         for z in range(NZ):
                             CL[r, c, z] = cq(cfg, cfg["CTab"][(r * C + c) * NZ + z])
                 dv["cv"] = var(gdims + ["zz"], CL[tuple([slice(None) if cfg["NR"] else 0,
-                                                         slice(None) if cfg["NC"] else 0, slice(None)])])
+                                                         slice(None) if cfg["NC"] else 0, slice(None)])], "s")
         yarg, zarg = "yy", "zz"
     elif cfg["series"] == "vars":
         for z in range(NZ):
-            dv[VAR_NAMES[z]] = var(gdims + [xdim], sel(Y, z))
+            dv[VAR_NAMES[z]] = var(gdims + [xdim], sel(Y, z), "s" if z % 2 else "y")
         yarg, zarg = tuple(VAR_NAMES[:NZ]), None
     else:
         dv["yy"] = var(gdims + [xdim], sel(Y, 0))
         if cfg["xvar"]:
-            dv["xv"] = var(gdims + [xdim], sel(XV, 0))
+            dv["xv"] = var(gdims + [xdim], sel(XV, 0), "s")
         if h.get("yerr"):
-            dv["ey"] = var(gdims + [xdim], sel(EY, 0))
+            dv["ey"] = var(gdims + [xdim], sel(EY, 0), "s")
         if h.get("xerr"):
-            dv["ex"] = var(gdims + [xdim], sel(EY, 0) / 2)
+            dv["ex"] = var(gdims + [xdim], sel(EY, 0) / 2, "s")
         if cfg["colour"] == "c":
             if kind == "scatter":
-                dv["cv"] = var(gdims + [xdim], sel(CV, 0))
+                dv["cv"] = var(gdims + [xdim], sel(CV, 0), "s")
             else:
                 CL = np.empty((R, C))
                 for r in range(R):
                     for c in range(C):
                         CL[r, c] = cq(cfg, cfg["CTab"][(r * C + c) * NZ])
                 dv["cv"] = var(gdims, CL[tuple([slice(None) if cfg["NR"] else 0,
-                                                slice(None) if cfg["NC"] else 0])])
+                                                slice(None) if cfg["NC"] else 0])], "s")
         yarg, zarg = "yy", None
     if cfg["colour"] == "c":
         b.kwargs["c"] = "cv"
@@ -488,7 +536,7 @@ def build(case):
         b.kwargs["x_err"] = "ex"
     b.fn = fn
     b.args = ["xv" if cfg["xvar"] else "xx", yarg] + ([zarg] if zarg else [])
-    b.ds = xr.Dataset(coords=coords, data_vars=dv)
+    b.ds = assemble(coords, dv)
     return b
 
 
@@ -790,7 +838,10 @@ def compare(case, b, fig, P):
                 i = idx(cfg, r, c, s, k)
                 want_xy.append((xvval(i) if cfg["xvar"] else x_coords(cfg)[k - 1], yval(i)))
             got_xy = [(float(p[0]), float(p[1])) for p in g["xy"]]
-            a, w = (got_xy, want_xy) if kind == "line" else (sorted(got_xy), sorted(want_xy))
+            # a line joins its points in x-position order; where the positions are spread over two
+            # dimensions (split) or for a scatter the order carries no meaning
+            ordered = kind == "line" and not h.get("split")
+            a, w = (got_xy, want_xy) if ordered else (sorted(got_xy), sorted(want_xy))
             if a != w:
                 P.add("points", "%s (label %r) draws %s, the finite (x, y) pairs of the dataset are %s"
                       % (who, g["label"], got_xy, want_xy),
@@ -805,7 +856,9 @@ def compare(case, b, fig, P):
                     if segs is None or len(segs) != len(want_xy):
                         P.add("errorbar", "%s: %s error bars for %d points" % (who, "no" if segs is None else len(segs), len(want_xy)))
                         continue
-                    for (x, y), k, sg in zip(want_xy, d["pts"], segs):
+                    kof = {wxy: k for wxy, k in zip(want_xy, d["pts"])}
+                    for (x, y), sg in zip(got_xy, segs):
+                        k = kof[(x, y)]
                         e = errval(idx(cfg, r, c, s, k)) * scale
                         wseg = [(x, y - e), (x, y + e)] if nm == "yerr" else [(x - e, y), (x + e, y)]
                         if not all(close(float(sg[q][t]), wseg[q][t], rel=1e-12) for q in range(2) for t in range(2)):
@@ -944,6 +997,10 @@ def run(rep):
         "error-bar, marker and log-axis options are passed through; error bars are compared at the kept points only",
         "colour limits of a heat map that contains +-inf are only noted (outside the statement); a single finite "
         "value / single series leaves the normalisation undefined and its colour is not compared",
+        "data refinement: the stored dimension order of x / error / colour variables (and of every other y variable) "
+        "relative to y and to the Dataset, and positions spread over two equally long dimensions, are varied by the "
+        "harness under unchanged abstract cases; where positions span two dimensions the order of a line's points is "
+        "not compared",
         "auto_lineplot/auto_scatter are not exercised with square y arrays (the documented transposition is ambiguous there)",
     ]
     cfgs = gen_configs(rep.tier)
